@@ -187,6 +187,8 @@ def nrepr(v):
     return norm(repr(v))
 
 def norm(s):
+    if "cython_function_or_method" in s:      # the compiled function type differs by design (documented)
+        s = re.sub(r"(?:_cython_\w+\.)?cython_function_or_method", "function", s)
     if "<" not in s:
         return s
     s = _OBJ.sub("<obj>", s)
